@@ -23,7 +23,7 @@ from pyvc import library
 import wntr
 from wntr.network.base import Registry, Link
 from wntr.network import model as MODEL
-from wntr.network.elements import (Junction, Tank, Reservoir, Pipe, HeadPump, PowerPump, PRValve, GPValve, TimeSeries, Demands)
+from wntr.network.elements import (Junction, Tank, Reservoir, Pipe, HeadPump, PowerPump, PRValve, PSValve, PBValve, FCValve, TCValve, GPValve, TimeSeries, Demands)
 from wntr.utils.ordered_set import OrderedSet
 
 P = ["C14"]
@@ -270,8 +270,9 @@ CONTRACTS = [
 LINK_SUBSETS = ["_pipes", "_pumps", "_head_pumps", "_power_pumps", "_prvs", "_psvs", "_pbvs", "_tcvs", "_fcvs", "_gpvs", "_valves"]
 NODE_SUBSETS = ["_junctions", "_reservoirs", "_tanks"]
 CURVE_SUBSETS = ["_pump_curves", "_efficiency_curves", "_headloss_curves", "_volume_curves"]
-LINK_SETS_OF = {Pipe: {"_pipes"}, HeadPump: {"_pumps", "_head_pumps"}, PowerPump: {"_pumps", "_power_pumps"}, PRValve: {"_valves", "_prvs"}, GPValve: {"_valves", "_gpvs"}}
-LINK_TYPE = {Pipe: "Pipe", HeadPump: "Pump", PowerPump: "Pump", PRValve: "Valve", GPValve: "Valve"}
+LINK_SETS_OF = {Pipe: {"_pipes"}, HeadPump: {"_pumps", "_head_pumps"}, PowerPump: {"_pumps", "_power_pumps"}, PRValve: {"_valves", "_prvs"}, GPValve: {"_valves", "_gpvs"},
+                PSValve: {"_valves", "_psvs"}, PBValve: {"_valves", "_pbvs"}, FCValve: {"_valves", "_fcvs"}, TCValve: {"_valves", "_tcvs"}}
+LINK_TYPE = {Pipe: "Pipe", HeadPump: "Pump", PowerPump: "Pump", PRValve: "Valve", GPValve: "Valve", PSValve: "Valve", PBValve: "Valve", FCValve: "Valve", TCValve: "Valve"}
 
 
 class World:
@@ -357,7 +358,7 @@ def _link_delitem_case(cls, same_ends, with_pattern):
 
 _link_del_cases = [_link_delitem_case(Pipe, False, False), _link_delitem_case(Pipe, True, False), _link_delitem_case(HeadPump, False, False),
                    _link_delitem_case(HeadPump, False, True), _link_delitem_case(PowerPump, False, True), _link_delitem_case(PRValve, False, False),
-                   _link_delitem_case(GPValve, False, False)]
+                   _link_delitem_case(GPValve, False, False)] + [_link_delitem_case(c, False, False) for c in (PSValve, PBValve, FCValve, TCValve)]
 
 CONTRACTS.append(Contract("wntr.network.model:LinkRegistry.__delitem__", P, _link_del_cases,
                           note="arbitrary registries under RegInv; the link's class, whether its two ends are the same node, speed pattern / curve use are enumerated"))
@@ -380,10 +381,12 @@ def _node_delitem_case(kind):
             _nonempty(cx, n)
         cx.assume(z3.Distinct(cx.t(N), cx.t(other), cx.t(ref)))
         w = World(cx)
-        if kind == "junction":
+        if kind.startswith("junction"):
             from wntr.network.elements import Pattern
             pat = SymObj(Pattern, dict(name=ref, _multipliers=[1.0, 2.0]))
-            node = SymObj(Junction, dict(_name=N, _demand_timeseries_list=_DemList([pat]), _pattern_reg=w.pat.obj))
+            # several demand entries may share one pattern (the usage record is a set: the second release finds nothing to release)
+            pats = {"junction": [pat], "junction_two_demands_one_pattern": [pat, pat], "junction_demand_without_pattern_first": [None, pat]}[kind]
+            node = SymObj(Junction, dict(_name=N, _demand_timeseries_list=_DemList(pats), _pattern_reg=w.pat.obj))
             w.pat.assume_member(ref, (N, "Junction"))
             user = (w.pat, (N, "Junction"))
         elif kind == "reservoir":
@@ -398,7 +401,7 @@ def _node_delitem_case(kind):
         w.node.data.overlay.append((N, node))
         sets = {"junction": "_junctions", "reservoir": "_reservoirs", "tank": "_tanks"}
         for t, (pred, sm) in w.node.typed.items():
-            cx.assume(pred(cx.t(N)) == z3.BoolVal(t == sets[kind]))
+            cx.assume(pred(cx.t(N)) == z3.BoolVal(t == sets[kind.split("_")[0]]))
         for r in w.regs:
             r.assume_inv(N, other, ref)
         used = z3.And(w.node.U(cx.t(N)), w.node.CARD(cx.t(N)) > 0)
@@ -447,10 +450,10 @@ def _setitem_case(regname, cls, subsets_true):
 
 
 CONTRACTS += [
-    Contract("wntr.network.model:NodeRegistry.__delitem__", P, [_node_delitem_case(k) for k in ("junction", "reservoir", "tank")]),
+    Contract("wntr.network.model:NodeRegistry.__delitem__", P, [_node_delitem_case(k) for k in ("junction", "junction_two_demands_one_pattern", "junction_demand_without_pattern_first", "reservoir", "tank")]),
     Contract("wntr.network.model:NodeRegistry.__setitem__", P, [_setitem_case("node", Junction, {"_junctions"}), _setitem_case("node", Tank, {"_tanks"}),
                                                                  _setitem_case("node", Reservoir, {"_reservoirs"})]),
-    Contract("wntr.network.model:LinkRegistry.__setitem__", P, [_setitem_case("link", c, LINK_SETS_OF[c]) for c in (Pipe, HeadPump, PowerPump, PRValve, GPValve)]),
+    Contract("wntr.network.model:LinkRegistry.__setitem__", P, [_setitem_case("link", c, LINK_SETS_OF[c]) for c in (Pipe, HeadPump, PowerPump, PRValve, PSValve, PBValve, FCValve, TCValve, GPValve)]),
 ]
 
 
@@ -887,3 +890,55 @@ def _edit_histories(shard, nshards):
 
 NSHB = 8
 BOUNDED = [Bounded("C14.edit_histories[%d/%d]" % (i, NSHB), P, _edit_histories(i, NSHB), kind="random edit histories, run-time representation invariant") for i in range(NSHB)]
+
+
+# ---------------------------------------------------------------------------- which elements a control / rule refers to (remove_* refuses them)
+
+def _requires_case(kind):
+    """requires() is the set of elements the condition reads and the actions write: the union over both operands of AND / OR, over the
+    condition, the THEN and the ELSE actions of a rule.  Elements are opaque objects; operands may share elements."""
+    def build(cx):
+        import wntr.network.controls as ctl
+        from wntr.utils.ordered_set import OrderedSet
+
+        class E:
+            def __init__(self, n):
+                self.name = n
+
+            def __repr__(self):
+                return self.name
+        a, b, c, d = E("a"), E("b"), E("c"), E("d")
+
+        class Leaf_(NativeModel):
+            def __init__(self, els):
+                self.els = els
+
+            def requires(self):
+                return OrderedSet(self.els)
+        holder = {}
+        if kind in ("and", "or"):
+            cls = ctl.AndCondition if kind == "and" else ctl.OrCondition
+            obj = cx.obj(cls, _condition_1=Leaf_([a, b]), _condition_2=Leaf_([b, c]))
+            want = [a, b, c]
+        elif kind == "nested":
+            inner = cx.obj(ctl.OrCondition, _condition_1=Leaf_([b]), _condition_2=Leaf_([c, d]))
+            obj = cx.obj(ctl.AndCondition, _condition_1=Leaf_([a]), _condition_2=inner)
+            want = [a, b, c, d]
+        else:
+            obj = cx.obj(ctl.Rule, _condition=Leaf_([a]), _then_actions=[Leaf_([b]), Leaf_([a])], _else_actions=[Leaf_([c]), Leaf_([d])] if kind == "rule_else" else [])
+            want = [a, b, c, d] if kind == "rule_else" else [a, b]
+        holder["obj"] = obj
+        cx.target(type(obj.cls.requires) and obj.cls.requires, obj)
+
+        def post(out):
+            if not out.returned:
+                return []
+            got = list(out.value.fields["_data"]) if hasattr(out.value, "fields") else list(out.value)
+            return [("every_element_of_every_operand_and_action_exactly_once", len(got) == len(want) and all(any(g is w for g in got) for w in want))]
+        cx.ensure(post)
+    return Case(kind, build, crosscheck=False)
+
+
+CONTRACTS.append(Contract("wntr.network.controls:AndCondition/OrCondition/ControlBase.requires", P, [_requires_case(k) for k in ("and", "or", "nested", "rule", "rule_else")],
+                          note="what remove_node / remove_link consult before refusing: fixed small operand sets with shared elements",
+                          trusted=["leaf conditions and actions return the elements they hold (one-line methods)"]))
